@@ -293,6 +293,59 @@ def run(ck: Check):
         ck.count("long_run_steps", n)
         if bad:
             ck.violation(dict(clause=bad["clause"], regime="long-run"), dict(config=cfg, stream_head=xs[:5], stream_len=n, seed_note="stream = N(0,1) then N(4,1) for the last 150 values, drawn from the check's generator", **bad))
+    # (own generator: independent of the draws above)
+    import random as _random
+    import numpy as _np
+
+    prng = _random.Random(80808)
+    # the hazard handed over as a NumPy scalar of reduced precision: log H and log(1-H) are then rounded separately, yet
+    # every row must still sum to one (the posterior is normalised by its own total, not by an assumed evidence)
+    for hz in ([_np.float32(0.1), _np.float16(0.05)] if not thorough else [_np.float32(0.1), _np.float16(0.05), _np.float32(0.003), _np.float16(0.3), _np.float32(0.7)]):
+        cfg = dict(prior_mean=0.5, prior_var=2.0, data_var=1.5, hazard=hz, min_num_instances=5)
+        xs = [prng.gauss(0, 1) for _ in range(25)] + [prng.gauss(3, 1) for _ in range(25)]
+        try:
+            d = _BOCD(config=_BOCDConfig(model=_GUM(prior_mean=0.5, prior_var=2.0, data_var=1.5), hazard=hz, min_num_instances=5))
+            worst, at = 0.0, 0
+            for t, v in enumerate(xs, 1):
+                d.update(value=v)
+                tot = abs(float(_lse(d.log_r[t, : t + 1])))
+                if not (tot <= worst):
+                    worst, at = tot, t
+        except Exception as e:  # noqa: BLE001
+            ck.violation(dict(clause="raises", scenario="typed-hazard"), dict(hazard=repr(hz), error=repr(e), stream=xs))
+            continue
+        ck.case(dict(kind="typed-hazard", hazard=repr(hz), worst_log_total=worst), nontrivial=True, key=repr(("typed-hazard", repr(hz), xs[:3])))
+        ck.count("typed_hazard_cases")
+        if not (worst <= 1e-9):
+            ck.violation(dict(clause="normalisation", regime="typed-hazard"), dict(what="run-length row does not sum to one when the hazard is a reduced-precision NumPy scalar", hazard=repr(hz), step=at, log_total=worst, stream=xs))
+    # the configured model replaced / re-parameterised through the public attributes, THEN reset(): the detector must
+    # continue as a detector newly built from the configuration as it is now
+    for k in range(4 if not thorough else 16):
+        pm, pv, dv = prng.choice([0.0, 1.0]), prng.choice([1.0, 4.0]), prng.choice([0.5, 1.0])
+        hz = prng.choice([0.05, 0.2])
+        xs0 = [prng.gauss(pm, 1) for _ in range(prng.choice([0, 7]))]
+        xs = [prng.gauss(pm + 2, 1) for _ in range(12)] + [prng.gauss(pm - 2, 1) for _ in range(12)]
+        try:
+            conf = _BOCDConfig(model=_GUM(prior_mean=pm, prior_var=pv, data_var=dv), hazard=hz, min_num_instances=3)
+            d = _BOCD(config=conf)
+            for v in xs0:
+                d.update(value=v)
+            if k % 2 == 0:
+                ncfg = dict(prior_mean=pm + 1.5, prior_var=pv * 2, data_var=dv * 3, hazard=hz, min_num_instances=3)
+                d.config.model = _GUM(prior_mean=ncfg["prior_mean"], prior_var=ncfg["prior_var"], data_var=ncfg["data_var"])
+                how = "config.model replaced"
+            else:
+                ncfg = dict(prior_mean=pm, prior_var=pv, data_var=dv * 4, hazard=hz, min_num_instances=3)
+                d.config.model.data_var = ncfg["data_var"]
+                how = "config.model.data_var assigned"
+            d.reset()
+            out = run_obj(d, xs)
+        except Exception as e:  # noqa: BLE001
+            ck.violation(dict(clause="raises", scenario="model-then-reset"), dict(error=repr(e), stream=xs))
+            continue
+        ok, short = check_trace(ck, ncfg, xs, out, extra=dict(scenario=f"{how} after {len(xs0)} updates, then reset(): the posterior must be the one of the configuration as it is now", updates_before=len(xs0)))
+        ck.case(dict(config=ncfg, kind="model-then-reset", how=how), nontrivial=short, key=repr(("mtr", ncfg, xs, k)))
+        ck.count("model_then_reset_cases")
     models = run_models("C08", cases, shard=8)
     corr_compare(ck, "C08", cases, impl, models, rtol=1e-7, atol=1e-9)
 
